@@ -17,6 +17,7 @@ import (
 	"sync/atomic"
 	"time"
 
+	"github.com/theparanoids/ysshra/agent/shimagent"
 	"golang.org/x/crypto/ssh"
 	"verifharness/core"
 )
@@ -52,6 +53,7 @@ func childMain(args []string) {
 	case "mode":
 		modeProbe(r)
 	case "slow":
+		twoShimsOneUpstream(r)
 		refusedThenForward(r)
 		identicalForwards(r)
 		slowForward(r)
@@ -620,6 +622,67 @@ func faultyForward(r *rand.Rand, idx int) {
 		}
 	}
 	emit(map[string]interface{}{"kind": "faulty-ok", "threads": nth})
+}
+
+// twoShimsOneUpstream: two shim agents in one process in front of the same underlying agent (the same socket
+// address), each used by its own clients at the same time.  Each shim has its own connection to the agent and its own
+// lock; the clients of one are not disturbed by the clients of the other: every raw request gets the reply to itself,
+// every listing succeeds.
+func twoShimsOneUpstream(r *rand.Rand) {
+	stop := watchdog("two shim agents over one underlying agent", 60*time.Second)
+	defer stop()
+	up, err := startUpstream()
+	if err != nil {
+		emit(map[string]interface{}{"kind": "setup-error", "error": err.Error()})
+		return
+	}
+	defer up.close()
+	atomic.StoreInt32(&listDelayMs, 3)
+	defer atomic.StoreInt32(&listDelayMs, 0)
+	var shims []shimagent.ShimAgent
+	for i := 0; i < 2; i++ {
+		sh, err := shimagent.New(shimagent.Option{Address: up.sock})
+		if err != nil {
+			emit(map[string]interface{}{"kind": "setup-error", "error": err.Error()})
+			return
+		}
+		shims = append(shims, sh)
+	}
+	var mu sync.Mutex
+	var problems []string
+	var wg sync.WaitGroup
+	for si, sh := range shims {
+		for t := 0; t < 2; t++ {
+			wg.Add(1)
+			go func(si, t int, sh shimagent.ShimAgent) {
+				defer wg.Done()
+				for k := 0; k < 40; k++ {
+					if (k+t)%3 == 0 {
+						if _, err := sh.List(); err != nil {
+							mu.Lock()
+							problems = append(problems, fmt.Sprintf("shim %d client %d: List: %v", si, t, err))
+							mu.Unlock()
+						}
+						continue
+					}
+					if ok, d := forwardTagged(sh, r); !ok {
+						mu.Lock()
+						problems = append(problems, fmt.Sprintf("shim %d client %d: %s", si, t, d))
+						mu.Unlock()
+					}
+				}
+			}(si, t, sh)
+		}
+	}
+	wg.Wait()
+	for _, sh := range shims {
+		core.Guard(func() { _ = sh.Close() })
+	}
+	if len(problems) > 0 {
+		emit(map[string]interface{}{"kind": "slow-problem", "what": "two shim agents over one underlying agent: " + problems[0], "count": len(problems)})
+	} else {
+		emit(map[string]interface{}{"kind": "slow-ok"})
+	}
 }
 
 // refusedThenForward: a request the shim refuses without needing the underlying agent's answer (a hardware
